@@ -22,7 +22,7 @@ PREFIXES = [None, "a.b", "a.{user}", "{user}.a", "a.{user}.b.{kind}", "{user}"]
 
 
 def cases(tier):
-    delims = [".", "/"] if tier == "quick" else [".", "/", ":", "::"]
+    delims = [".", "/", "%"] if tier == "quick" else [".", "/", ":", "::", "%", "-%-"]
     out = []
     for d in delims:
         scopes = []
@@ -109,12 +109,40 @@ def fmt_rope(fmt, args, conv):
     return rope
 
 
+def java_fmt_rope(fmt, args):
+    """java.util.Formatter as far as the generated code uses it: %s takes the next argument, %% is a literal
+    percent sign; any other conversion makes String.format THROW (UnknownFormatConversionException /
+    MissingFormatArgumentException): the rope then carries a marker no specification rope contains."""
+    rope, lit, i, n = [], "", 0, 0
+    while i < len(fmt):
+        c = fmt[i]
+        if c != "%":
+            lit += c
+            i += 1
+            continue
+        nxt = fmt[i + 1] if i + 1 < len(fmt) else ""
+        if nxt == "%":
+            lit += "%"
+        elif nxt == "s" and n < len(args):
+            rope.append(("lit", lit))
+            lit = ""
+            rope += args[n]
+            n += 1
+        else:
+            return [("lit", "<String.format throws on conversion %" + nxt + ">")]
+        i += 2
+    if n != len(args):
+        raise ExtractError("placeholder/argument mismatch in %r with %r" % (fmt, args))
+    rope.append(("lit", lit))
+    return rope
+
+
 def eval_java(expr, env):
     expr = expr.strip()
     m = re.fullmatch(r'String\.format\("((?:[^"\\]|\\.)*)"((?:\s*,\s*\w+)*)\)', expr)
     if m:
         args = [eval_java(a, env) for a in re.findall(r"\w+", m.group(2))]
-        return fmt_rope(m.group(1), args, r"%s")
+        return java_fmt_rope(m.group(1), args)
     m = re.fullmatch(r'"((?:[^"\\]|\\.)*)"', expr)
     if m:
         return [("lit", m.group(1))]
